@@ -99,7 +99,7 @@ PLAN = dict(
         "`valid_date(y,m,d) && h<24 && mi<60 && s<60 && unix_day(y,m,d)*86400 + h*3600 + mi*60 + s == t` where unix_day is the textbook "
         "Rata-Die day count, and proved by Verus for every i64 second count (no bound), including absence of overflow, in-range casts, "
         "in-bounds indexing and termination of the month loop. Lemmas prove unix_day strictly monotone on valid dates, hence the decomposition is "
-        "unique and successive instants print in non-decreasing order. The SystemTime -> (secs, nanos) prelude is a Kani obligation on the statement extracted from the real function; the Display layout (zero padding by core::fmt) is assumed. That `nanos / 1000` truncates is lemma_micros_truncate; that Display prints exactly that expression is not decided."),
+        "unique and successive instants print in non-decreasing order. The SystemTime -> (secs, nanos) prelude is a Kani obligation on the statement extracted from the real function; the Display layout is checked at 7 concrete dates on the year sign / width boundaries (bounded; a symbolic Display does not finish). That `nanos / 1000` truncates is lemma_micros_truncate; that Display prints exactly that expression is not decided."),
     verus=[dict(name="civil", builder="build_civil", rlimit=200,
                 obligations=["civil_from_secs", "lemma_calendar", "lemma_years", "lemma_leaps_shift", "lemma_leaps_step", "sanity",
                              "lemma_unix_day_strictly_monotone", "lemma_order_preserving", "lemma_year_mono", "lemma_year_step",
